@@ -139,22 +139,31 @@ func (in *Interp) thread() *Thread { return in.cur }
 // ---------- branching ----------
 
 func (in *Interp) endPath(kind, reason string) {
+	if kind == "CUT" || kind == "INCONCLUSIVE" || kind == "UNSUPPORTED" {
+		reason += " @ " + in.site()
+	}
 	panic(&pathEnd{kind: kind, reason: reason})
 }
 
 // branch decides a symbolic condition, forking when both sides are feasible.
-func (in *Interp) branch(c *Term) bool {
-	if c.op == "true" {
-		return true
-	}
-	if c.op == "false" {
-		return false
-	}
-	if v, ok := in.known[c]; ok {
-		return v
-	}
-	if v, ok := in.known[in.tm.Not(c)]; ok {
-		return !v
+func (in *Interp) branch(c *Term) bool { return in.branchX(c, false) }
+
+// branchX with force=true always consumes one decision slot (used by
+// concretize, whose replay must stay aligned with the recorded values).
+func (in *Interp) branchX(c *Term, force bool) bool {
+	if !force {
+		if c.op == "true" {
+			return true
+		}
+		if c.op == "false" {
+			return false
+		}
+		if v, ok := in.known[c]; ok {
+			return v
+		}
+		if v, ok := in.known[in.tm.Not(c)]; ok {
+			return !v
+		}
 	}
 	var d bool
 	if len(in.decisions) < len(in.prefix) {
@@ -227,7 +236,11 @@ func (in *Interp) concretize(v Value, t types.Type) int64 {
 	for n := 0; ; n++ {
 		if n >= in.cfg.MaxShape {
 			in.cuts = append(in.cuts, "shape")
-			in.endPath("CUT", "more than MaxShape values for a symbolic shape")
+			smt := tt.SMT()
+			if len(smt) > 300 {
+				smt = smt[:300]
+			}
+			in.endPath("CUT", "more than MaxShape values for a symbolic shape: "+smt)
 		}
 		var k uint64
 		if len(in.decisions) < len(in.prefix) {
@@ -244,7 +257,7 @@ func (in *Interp) concretize(v Value, t types.Type) int64 {
 			k = kv
 		}
 		in.curVal = k
-		hit := in.branch(in.tm.Eq(tt, in.tm.Const(k, w)))
+		hit := in.branchX(in.tm.Eq(tt, in.tm.Const(k, w)), true)
 		in.curVal = 0
 		if hit {
 			if isUnsigned(t) {
@@ -1012,14 +1025,22 @@ func (in *Interp) runBlocks(fr *frame, b *ssa.BasicBlock) Value {
 			case *ssa.BinOp:
 				fr.env[x] = in.binop(x.Op, in.get(fr, x.X), in.get(fr, x.Y), x.X.Type(), x.Y.Type())
 			case *ssa.Store:
-				p, _ := in.get(fr, x.Addr).(*Obj)
+				av := in.get(fr, x.Addr)
+				if sp, ok := av.(*SymPtr); ok {
+					av = sp.elems[in.concretize(sp.idx, sp.it)]
+				}
+				p, _ := av.(*Obj)
 				if p == nil {
 					in.tpanic("nil-deref", "nil pointer dereference (store)")
 				}
 				in.raceWrite(p)
 				p.store(in.get(fr, x.Val))
 			case *ssa.FieldAddr:
-				p, _ := in.get(fr, x.X).(*Obj)
+				av := in.get(fr, x.X)
+				if sp, ok := av.(*SymPtr); ok {
+					av = sp.elems[in.concretize(sp.idx, sp.it)]
+				}
+				p, _ := av.(*Obj)
 				if p == nil {
 					in.tpanic("nil-deref", "nil pointer dereference (field)")
 				}
@@ -1199,6 +1220,9 @@ func (in *Interp) unop(fr *frame, x *ssa.UnOp) Value {
 	v := in.get(fr, x.X)
 	switch x.Op {
 	case token.MUL:
+		if sp, ok := v.(*SymPtr); ok {
+			return in.loadSymPtr(sp)
+		}
 		p, _ := v.(*Obj)
 		if p == nil {
 			in.tpanic("nil-deref", "nil pointer dereference")
@@ -1227,6 +1251,53 @@ func (in *Interp) unop(fr *frame, x *ssa.UnOp) Value {
 	panic(fmt.Sprintf("unop %s %T", x.Op, v))
 }
 
+// SymPtr is the address of elems[idx] for a symbolic, in-range idx (produced by
+// IndexAddr; a load becomes an ITE chain, a store concretizes the index).
+type SymPtr struct {
+	elems []*Obj
+	idx   *Term
+	it    types.Type
+	et    types.Type
+}
+
+func (in *Interp) symPtr(iv *Term, it types.Type, elems []*Obj, et types.Type) Value {
+	idx64 := in.tm.Resize(iv, 64, !isUnsigned(it))
+	oob := in.tm.Cmp("bvuge", idx64, in.tm.Const(uint64(len(elems)), 64))
+	if in.branch(oob) {
+		in.tpanic("index", fmt.Sprintf("index out of range [symbolic] with length %d", len(elems)))
+	}
+	scalar := len(elems) > 0 && len(elems) <= 300
+	for _, e := range elems {
+		if e.agg {
+			scalar = false
+			break
+		}
+		switch e.leaf.(type) {
+		case int64, *Term, bool:
+		default:
+			scalar = false
+		}
+	}
+	if !scalar {
+		return elems[in.concretize(iv, it)]
+	}
+	return &SymPtr{elems: elems, idx: iv, it: it, et: et}
+}
+
+func (in *Interp) loadSymPtr(p *SymPtr) Value {
+	w := width(p.et)
+	acc := in.toTerm(p.elems[len(p.elems)-1].leaf, w)
+	for i := len(p.elems) - 2; i >= 0; i-- {
+		in.raceRead(p.elems[i])
+		v := in.toTerm(p.elems[i].leaf, w)
+		if v == acc {
+			continue
+		}
+		acc = in.tm.Ite(in.tm.Cmp("bvule", p.idx, in.tm.Const(uint64(i), p.idx.w)), v, acc)
+	}
+	return in.fromTerm(acc, p.et)
+}
+
 // boundsIndex returns a concrete index in [0,limit), forking a panic path when
 // a symbolic index can be out of range.
 func (in *Interp) boundsIndex(iv Value, it types.Type, limit int) int {
@@ -1237,7 +1308,8 @@ func (in *Interp) boundsIndex(iv Value, it types.Type, limit int) int {
 		}
 		return int(c)
 	case *Term:
-		oob := in.tm.Cmp("bvuge", c, in.tm.Const(uint64(limit), c.w))
+		c64 := in.tm.Resize(c, 64, !isUnsigned(it))
+		oob := in.tm.Cmp("bvuge", c64, in.tm.Const(uint64(limit), 64))
 		if in.branch(oob) {
 			in.tpanic("index", fmt.Sprintf("index out of range [symbolic] with length %d", limit))
 		}
@@ -1250,11 +1322,17 @@ func (in *Interp) indexAddr(fr *frame, x *ssa.IndexAddr) Value {
 	iv := in.get(fr, x.Index)
 	switch c := in.get(fr, x.X).(type) {
 	case Slice:
+		if t, ok := iv.(*Term); ok {
+			return in.symPtr(t, x.Index.Type(), c.arr.kids[c.off:c.off+c.len], x.Type().(*types.Pointer).Elem())
+		}
 		idx := in.boundsIndex(iv, x.Index.Type(), c.len)
 		return c.arr.kids[c.off+idx]
 	case *Obj:
 		if c == nil {
 			in.tpanic("nil-deref", "nil pointer dereference (array index)")
+		}
+		if t, ok := iv.(*Term); ok {
+			return in.symPtr(t, x.Index.Type(), c.kids, x.Type().(*types.Pointer).Elem())
 		}
 		idx := in.boundsIndex(iv, x.Index.Type(), len(c.kids))
 		return c.kids[idx]
@@ -1283,7 +1361,8 @@ func (in *Interp) index(fr *frame, x *ssa.Index) Value {
 
 // iteIndex reads elems[idx] for a symbolic idx as an ITE chain (scalar elements only).
 func (in *Interp) iteIndex(idx *Term, it types.Type, elems []Value, et types.Type) Value {
-	oob := in.tm.Cmp("bvuge", idx, in.tm.Const(uint64(len(elems)), idx.w))
+	idx64 := in.tm.Resize(idx, 64, !isUnsigned(it))
+	oob := in.tm.Cmp("bvuge", idx64, in.tm.Const(uint64(len(elems)), 64))
 	if in.branch(oob) {
 		in.tpanic("index", fmt.Sprintf("index out of range [symbolic] with length %d", len(elems)))
 	}
@@ -1320,7 +1399,8 @@ func (in *Interp) sliceBound(v Value, t types.Type, limit int) int {
 		}
 		return int(c)
 	case *Term:
-		oob := in.tm.Cmp("bvugt", c, in.tm.Const(uint64(limit), c.w))
+		c64 := in.tm.Resize(c, 64, !isUnsigned(t))
+		oob := in.tm.Cmp("bvugt", c64, in.tm.Const(uint64(limit), 64))
 		if in.branch(oob) {
 			in.tpanic("slice-bounds", fmt.Sprintf("slice bounds out of range [symbolic] with capacity %d", limit))
 		}
